@@ -1,6 +1,6 @@
 """C16: AVL tree — T-diff of /repo/src/iv_avl.c against the Lean model Ivy.L0.Avl, plus an
 independent reference oracle (sorted set + structural checker) run on the implementation's output."""
-import itertools, os, random, subprocess, hashlib
+import re, itertools, os, random, subprocess, hashlib
 from . import common
 
 PROP = "C16"
@@ -85,11 +85,11 @@ def oracle(ops, outs):
                 t, _ = parse_dump(w[1:], 0)
                 _, keys = check_tree(t)
                 ref = set(keys)
-            elif w[0] in ("ins", "del", "reins"):
-                k = int(w[1])
+            elif w[0] in ("ins", "del", "reins", "insh"):
+                k = int(w[-1])
                 p = line.split()
                 assert p[0] == "RES" and p[2] == "DUMP", "unexpected line " + line
-                if w[0] in ("ins", "reins"):
+                if w[0] in ("ins", "reins", "insh"):
                     exp_rc = "-1" if k in ref else "0"
                     assert p[1] == exp_rc, f"insert {k} returned {p[1]}, expected {exp_rc}"
                     ref.add(k)
@@ -116,7 +116,7 @@ def run_both(ops):
     except subprocess.TimeoutExpired as e:
         a = subprocess.CompletedProcess(e.cmd, -9, (e.stdout or b"").decode() if isinstance(e.stdout, bytes) else (e.stdout or ""), "TIMEOUT: iv_avl.c did not return")
     # for the models, inserting the node object that is already in the tree is an insert of a key that is present
-    mtext = text.replace("reins ", "ins ")
+    mtext = re.sub(r"insh \d+ ", "ins ", text.replace("reins ", "ins "))
     b = subprocess.run([common.REPLAY_BIN, "avl"], input=mtext, stdout=subprocess.PIPE, stderr=subprocess.PIPE, text=True)
     # the pointer-level model (Ivy.L0.AvlPtr: parent pointers, rebalance_path walk, min/max/next/prev) on the same ops
     b.ptr = subprocess.run([common.REPLAY_BIN, "avlptr"], input=mtext, stdout=subprocess.PIPE, stderr=subprocess.PIPE, text=True)
@@ -145,6 +145,9 @@ def gen_cases(tier, seed):
             d, n = dump_shape(s)
             for pos in range(0, n + 1):
                 ops += [f"load {d}", f"ins {2*pos+1}"]
+                # the inserted node object was deleted from a tree earlier and still carries its old height (1: it was a leaf; 2, 3; 0)
+                for sh in (1, 2, 3, 0):
+                    ops += [f"load {d}", f"insh {sh} {2*pos+1}"]
             for i in range(1, n + 1):
                 ops += [f"load {d}", f"del {2*i}"]
             for i in range(1, n + 1):
@@ -179,7 +182,7 @@ def gen_cases(tier, seed):
                 if k in present:
                     ops.append(f"del {k}"); present.discard(k)
                     continue
-            ops.append(f"ins {k}"); present.add(k)
+            ops.append(f"ins {k}" if rng.random() < 0.5 else f"insh {rng.choice([1, 1, 2, 3, 0])} {k}"); present.add(k)
             if rng.random() < 0.02:
                 ops.append("trav")
         ops.append("trav")
@@ -257,7 +260,8 @@ def examine(name, ops, tier, seed, res, pre=None):
 
 def run(tier, seed, proof):
     res = common.Result()
-    res.rule = ("cases: (1) every AVL shape of height<=4 (thorough: + every shape of height 5 with sampled ops) x every insert position x "
+    res.rule = ("cases: (1) every AVL shape of height<=4 (thorough: + every shape of height 5 with sampled ops) x every insert position (each with a node object whose link fields hold garbage and whose height "
+                "field holds 77 / 1 / 2 / 3 / 0: a recycled node that was a leaf, an inner node, or zeroed) x "
                 "every deletable node, loaded into both sides; (2) random insert/delete/duplicate histories. Each case's full tree dump "
                 "(shape, keys, stored heights) after every op is compared model vs iv_avl.c and checked by a reference sorted-set oracle. "
                 "non-trivial = at least one rotation or early-stop happened; distinct by hash of the op file")
